@@ -966,12 +966,13 @@ class ExecutionController:
                 self.plan.remove(stmt_id)
                 self.plan_id_set.remove(stmt_id)
 
-            for dep_id in stmt.depends_on:
+            # (sorted: the order of the plan must not depend on the hash seed)
+            for dep_id in sorted(stmt.depends_on):
                 add_with_deps(id_to_stmt[dep_id])
 
             early_plan.append(stmt_id)
 
-        for stmt_id in execute_ids:
+        for stmt_id in sorted(execute_ids):
             add_with_deps(id_to_stmt[stmt_id])
 
         self.plan = early_plan + self.plan
